@@ -2,6 +2,7 @@ package props
 
 import (
 	"fmt"
+	"net/http"
 	"testing"
 	"time"
 
@@ -184,6 +185,24 @@ func (c *c06World) build(s *gen.Stream, id string) (*gen.World, *gen.Cert) {
 	r = w.Resp[gen.PckCrlURL("platform")]
 	r.Header = map[string][]string{gen.HdrPckCrl: {gen.IssuerChainHeader(crlHdrInt, crlHdrRoot)}}
 	w.Resp[gen.PckCrlURL("platform")] = r
+	// what else an HTTP answer carries (when the server sent it, how long a cache may keep it, when the file last changed)
+	// says nothing about whether the artefact in its body is in date at the verifier's own times
+	if s.Intn(3) > 0 {
+		at := []time.Time{farBefore, farBefore.AddDate(20, 0, 0), time.Date(1994, 11, 6, 8, 49, 37, 0, time.UTC), farAfter.AddDate(-1, 0, 0)}[s.Intn(4)]
+		for u, r := range w.Resp {
+			h := map[string][]string{}
+			for k, v := range r.Header {
+				h[k] = v
+			}
+			h["Date"] = []string{at.Format(http.TimeFormat)}
+			h["Last-Modified"] = []string{at.AddDate(0, 0, -1).Format(http.TimeFormat)}
+			h["Expires"] = []string{farAfter.Format(http.TimeFormat)}
+			h["Cache-Control"] = []string{"max-age=2592000"}
+			h["Age"] = []string{"86400"}
+			r.Header = h
+			w.Resp[u] = r
+		}
+	}
 	return w, poolRoot
 }
 
@@ -524,6 +543,9 @@ func TestC06(t *testing.T) {
 			}
 		}
 	})
+	// a signed QE Identity that states no end date at all (member absent), next to an unsigned twin member - or after a
+	// refused response - that states a comfortable one: a document without an end is not in date
+	gen.Prop(t, "signed-document-without-an-end-date", gen.N(300, 20000), func(t *rapid.T) { c07OmittedMember(t, "nextUpdate") })
 	gen.Direct(t, "default-time-set", func(t *testing.T) {
 		now := time.Now()
 		for _, expired := range []bool{false, true} {
